@@ -296,6 +296,12 @@ func TestVerifC04Stream(t *testing.T) {
 					resetAt = written
 					nontriv = true
 					classes = append(classes, "interleaved Reset")
+					if rapid.IntRange(0, 2).Draw(rt, "sumAfterMidReset") == 0 {
+						if got, want := d.Sum(nil), c04RefDigest(v, nil); !bytes.Equal(got, want) {
+							rt.Fatalf("%s Sum right after a mid-stream Reset: got %x want %x", v.name, got, want)
+						}
+						classes = append(classes, "Sum right after Reset")
+					}
 				}
 			}
 			eff := msg[resetAt:]
@@ -371,6 +377,13 @@ func TestVerifC04Stream(t *testing.T) {
 				d.Reset() // reuse of the same object for another message
 				nontriv = true
 				classes = append(classes, "reuse after Reset")
+				if rapid.Bool().Draw(rt, "sumRightAfterReset") {
+					// no Write at all since the Reset: the digest of the empty message
+					if got, want := d.Sum(nil), c04RefDigest(v, nil); !bytes.Equal(got, want) {
+						rt.Fatalf("%s Sum right after Reset (nothing written since): got %x want %x", v.name, got, want)
+					}
+					classes = append(classes, "Sum right after Reset")
+				}
 			}
 		}
 		seenCl := map[string]bool{}
